@@ -135,6 +135,16 @@ Pop(m) ==
   /\ models' = [models EXCEPT ![m] = Dead]
   /\ rej' = "none" /\ UNCHANGED <<name, gb, nmodels, uval, rt>>
 
+\* the last reference to a model is released without popping: the nodes hold only a weak
+\* reference, so they are unfrozen - but (deliberately modelled as coded) a seed input the
+\* model attached stays attached
+DropModel(m) ==
+  /\ m \in 1..nmodels /\ models[m].alive /\ \E o \in U : owner[o] = m
+  /\ owner' = [o \in U |-> IF owner[o] = m THEN 0 ELSE owner[o]]
+  /\ models' = [models EXCEPT ![m] = Dead]
+  /\ popped' = {} /\ rej' = "none"
+  /\ UNCHANGED <<name, seedin, gb, nmodels, snap, uval, rt>>
+
 \* deepcopy(model) / save + load / copy_nodes_and_vars + build: a new independent model
 CopyModel(m) ==
   /\ m \in 1..nmodels /\ models[m].alive /\ nmodels < MaxModels
